@@ -107,10 +107,16 @@ let () =
           | ["lg"; w; k; site; sev; clock; args] ->
               SLog (n_of w, nat_of_int (int_of_string k),
                     { lg_site = n_of site; lg_sev = n_of sev; lg_src = site_source (n_of site) (n_of sev); lg_clock = n_of clock; lg_args = hexs args })
+          | ["lx"; w; k; cond; clock; args] ->
+              (* `if (cond) S8; else S9;`: the statement executed is S8 (debug) or S9 (error), both inside function "fx" *)
+              let site, sev = if cond = "1" then 8, 64 else 9, 512 in
+              let src = site_source (n_of_int site) (n_of_int sev) in
+              SLog (n_of w, nat_of_int (int_of_string k),
+                    { lg_site = n_of_int site; lg_sev = n_of_int sev; lg_src = { src with s_function = bytes_of_string "fx" }; lg_clock = n_of clock; lg_args = hexs args })
           | ["cl"; w] -> SClose (n_of w)
           | ["as"; n; sev] -> SAddSource (site_source (n_of n) (n_of sev))
           | ["cs"; c; f; ns; tz; name] -> SSetClockSync { cs_clock = n_of c; cs_freq = n_of f; cs_ns = n_of ns; cs_tz = n_of tz; cs_tzname = hexs name }
-          | ["ms"; sev] -> SSetMinSev (n_of sev)
+          | ["ms"; sev] | ["mw"; sev] -> SSetMinSev (n_of sev)
           | ["co"; plans] -> SConsume (if plans = "" then [] else List.map parse_plan (String.split_on_char ';' plans))
           | ["rc"] -> SReconsume
           | _ -> failwith ("op " ^ t) in
